@@ -214,13 +214,18 @@ impl Observer for Obs {
     }
 }
 
+/// The C02 observer (reference successor, three views, exact take-back), for the `histories` fuzz target.
+pub fn observer() -> Box<dyn Observer> {
+    Box::new(Obs { snaps: vec![] })
+}
+
 pub fn nontrivial(f: &Features) -> bool {
     f.castles > 0 || f.ep_captures > 0 || f.promotions > 0 || f.rook_home_capture_with_right > 0 || f.null_nested_under_2 > 0
 }
 
 pub fn run(run: &mut Run) -> &'static str {
     let max_ops = 60;
-    let cases = run.tier.pick(120_000, 3_000_000);
+    let cases = run.tier.pick(300_000, 3_000_000);
     run.proptest_part("histories", RULE, hist_case(4..200), cases, |case: &HistCase, st: &mut Stats| {
         let mut obs = Obs { snaps: vec![] };
         let cfg = Config::search_like(max_ops);
@@ -248,8 +253,17 @@ pub fn run(run: &mut Run) -> &'static str {
         }
         Ok(())
     });
+    // thorough: coverage-guided fuzzing of the history tape (libFuzzer target `histories`, C02 + C03 +
+    // C15 oracles inside); crashing tapes are judged here by this property's observer
+    let crashes: Vec<HistCase> = super::fuzzglue::campaign(run, "histories", 400_000, 12, 400).into_iter().map(HistCase::Tape).collect();
+    if !crashes.is_empty() {
+        run.exhaustive_part("fuzz_crashes", RULE, crashes, |case: &HistCase, st: &mut Stats| {
+            let mut obs = Obs { snaps: vec![] };
+            interpret(case, &Config::search_like(max_ops), st, &mut obs).map(|_| ())
+        });
+    }
     // every legal move of every position of a walk: make, compare, undo, compare
-    let cases = run.tier.pick(40_000, 1_000_000);
+    let cases = run.tier.pick(100_000, 1_000_000);
     run.proptest_part("all_moves", RULE, super::common::pos_case(4..120), cases, |case, st: &mut Stats| {
         let ps = case.positions(crate::gen::Mix::General, 24, st);
         for gp in ps {
